@@ -240,7 +240,10 @@ def ipca(B, U_a, l_a, n_a, m_a=None, f=1.0, eps=1e-10, centred=None):
     eps : `float`, optional
         Tolerance value for positive eigenvalue. Those eigenvalues smaller
         than the specified eps value, together with their corresponding
-        eigenvectors, will be automatically discarded.
+        eigenvectors, will be automatically discarded. The final limit is
+        relative to the largest updated eigenvalue ::
+
+            limit = np.max(eigenvalues) * eps
 
     Returns
     -------
@@ -306,8 +309,10 @@ def ipca(B, U_a, l_a, n_a, m_a=None, f=1.0, eps=1e-10, centred=None):
 
     # compute new eigenvalues
     l = s_tilde**2 / (n - 1)
-    # keep only positive eigenvalues within tolerance
-    l = l[l > eps]
+    # keep only positive eigenvalues within tolerance (relative to the largest
+    # one, as in eigenvalue_decomposition, so that the unit of the data does
+    # not matter)
+    l = l[l > np.max(l) * eps]
 
     U = Vt_tilde.dot(np.vstack((U_a, B_tilde)))[: len(l), :]
 
